@@ -12,6 +12,8 @@ def feats(t):
     for fl in t['fields']:
         if fl['kind'] == 'tri':
             f.add('struct-array')
+        if fl['kind'] == 'hookvec':
+            f.add('named-slice')
         if fl['tag'] in ('-,public', '-,secret'):
             f.add('dash-name')
         if fl['kind'] in ('struct', 'ptr', 'emb'):
